@@ -24,24 +24,25 @@ BIG = 100
 class PerturbCase(Case):
     family = "perturb"
 
-    def __init__(self, cid, *, boundary, ptypes, bounds, R=1, P=1, two_samplers=False):
+    def __init__(self, cid, *, boundary, ptypes, bounds, R=1, P=1, two_samplers=False, sampler_map=None):
         """boundary/ptypes/bounds: per-variable tuples; bounds entries in {'both','lower','upper','none'}"""
         self.id = cid
         self.N = len(boundary)
         self.boundary, self.ptypes, self.bkind, self.R, self.P = boundary, ptypes, bounds, R, P
-        self.two = two_samplers and self.N >= 2
+        self.two = (two_samplers and self.N >= 2) or sampler_map is not None
+        self.sampler_map = list(sampler_map) if sampler_map is not None else (([0] + [1] * (self.N - 1)) if self.two else None)
         self.family = "perturb/" + "+".join(sorted(set(boundary)))
         lower = [0.0 if b in ("both", "lower") else -np.inf for b in bounds]
         upper = [1.0 if b in ("both", "upper") else np.inf for b in bounds]
         self.cfg0 = ens.ensemble_config(
             N=self.N, R=R, P=P, lower=lower, upper=upper, x0=[0.5] * self.N, boundary=boundary, ptypes=ptypes,
             magnitudes=0.1, rmin=1, pmin=1,
-            samplers=[{"method": "stub/a"}, {"method": "stub/b"}] if self.two else None,
-            sampler_map=([0] + [1] * (self.N - 1)) if self.two else None,
+            samplers=[{"method": f"stub/s{i}"} for i in range(max(self.sampler_map) + 1)] if self.two else None,
+            sampler_map=self.sampler_map,
         )
 
     def describe(self):
-        return f"N={self.N} boundary={self.boundary} types={self.ptypes} bounds={self.bkind} R={self.R} P={self.P} two_samplers={self.two}"
+        return f"N={self.N} boundary={self.boundary} types={self.ptypes} bounds={self.bkind} R={self.R} P={self.P} sampler_map={self.sampler_map}"
 
     def inputs(self, env):
         N, R, P = self.N, self.R, self.P
@@ -116,6 +117,8 @@ class PerturbCase(Case):
                 for p in range(P):
                     out = pv[r, p, j]
                     raw = x[j] + M * s[r, p, j]
+                    if self.sampler_map is not None and self.sampler_map[j] < 0:
+                        raw = x[j]   # no sampler is assigned to this variable
                     tag = f"v{j}.r{r}p{p}"
                     inside = And(raw >= lb[j], raw <= ub[j])
                     props.append((f"{tag}.inside_unchanged", Implies(inside, close(out, raw))))
@@ -177,6 +180,13 @@ def build_cases(tier):
     add(boundary=("truncate_both", "none"), ptypes=("relative", "absolute"), bounds=("both", "upper"))
     add(boundary=("mirror_both", "truncate_both"), ptypes=("absolute", "absolute"), bounds=("lower", "both"), R=2, P=1)
     add(boundary=("truncate_both", "mirror_both"), ptypes=("absolute", "absolute"), bounds=("both", "both"), two_samplers=True)
+    add(boundary=("none",) * 4, ptypes=("absolute",) * 4, bounds=("both",) * 4, sampler_map=(-1, 1, 0, 1))     # unassigned variable first
+    add(boundary=("truncate_both",) * 3, ptypes=("absolute",) * 3, bounds=("both",) * 3, sampler_map=(1, -1, 0))
+    # with a variable scaler (differential harness of C11): relative/absolute magnitudes in user units
+    from .c11 import TransformCase
+    for pt, bd in ((("relative", "absolute"), ("truncate_both", "none")), (("absolute", "relative"), ("mirror_both", "truncate_both"))):
+        k += 1
+        cases.append(TransformCase(f"c10-{k:03d}", N=2, L=0, C=0, ptypes=pt, boundary=bd, obj_scaler=False, con_scaler=False))
     if tier == "thorough":
         for combo in itertools.product(btypes, repeat=2):
             add(boundary=combo, ptypes=("relative", "absolute"), bounds=("both", "both"), P=2)
